@@ -28,3 +28,10 @@ func VerifRelaxClientTimeouts() {
 func VerifSetBackChannel(rt http.RoundTripper) {
 	httpClient = &http.Client{Transport: rt}
 }
+
+// verifOriginalClient is the back-channel client exactly as the package builds it.
+var verifOriginalClient = httpClient
+
+// VerifOriginalClient puts the package's own back-channel client (with its own time-outs) back in place,
+// for the one scenario that is about an authenticator that never answers.
+func VerifOriginalClient() { httpClient = verifOriginalClient }
